@@ -25,7 +25,7 @@ import wire
 
 MODULES = ["TLX.Props.C12Dissect"]
 THEOREMS = ["TLX.Props.C12Dissect." + n for n in (
-    "dissect_build_v4", "dissect_total", "short_frame_aborts", "kinds_inhabited", "non_ip_ignored",
+    "dissect_build_v4", "dissect_build_v6", "extOk_of_WF", "dissect_total", "short_frame_aborts", "kinds_inhabited", "non_ip_ignored",
     "Ex.needData_aborts", "Ex.unpack_aborts", "Ex.index_aborts", "Ex.attribute_aborts", "Ex.recursion_aborts",
     "Ex.pack_aborts")]
 
